@@ -219,6 +219,8 @@ class QasmOutput:
             version: The QASM version to target. Objects may return different
                 QASM depending on version.
         """
+        if any(q.dimension != 2 for q in qubits):
+            raise ValueError('QASM has only qubits, cannot output operations on qudits.')
         self.operations = tuple(ops.flatten_to_ops(operations))
         self.qubits = qubits
         self.header = header
